@@ -784,6 +784,13 @@ def dict_interchange(ctx, P, S, rule="SCHEMA-DICT"):
         if sc.has_schema:
             ctx.ob(rule, "%s|read|metadata_schema" % t, "metadata_schema" in keys_read and bool(FR.calls_to("tsk_%s_table_set_metadata_schema" % t)), whereR,
                    "metadata_schema read and applied")
+    # the edge indexes: written exactly when the collection has an index (an index over zero edges is still an index)
+    sel = [x for x in walk(wf.body) if x.k == "ConditionalOperator" and "indexes_cols" in estr(x.kids[1]) + estr(x.kids[2])]
+    ctx.need(bool(sel), "write_table_arrays: the `? indexes_cols : no_indexes_cols` selection")
+    cond = " ".join(tu.src(sel[0].kids[0]).split())
+    ok = re.fullmatch(r"tsk_table_collection_has_index\(\s*\w+\s*,\s*0\s*\)", cond) is not None and "no_indexes_cols" in estr(sel[0].kids[2])
+    ctx.ob(rule, "indexes|written-iff-has-index", ok, tu.loc(sel[0]),
+           "index columns are written under `%s`%s" % (cond, "" if ok else ": a collection that has an index (possibly over zero edges) loses it through asdict / pickle / copy"))
 
 
 CLS = {"individual": "IndividualTable", "node": "NodeTable", "edge": "EdgeTable", "migration": "MigrationTable", "site": "SiteTable",
